@@ -191,11 +191,12 @@ def scanObs (tbl : List QMsg) (s : Scan) : Obs → Scan
   | .publish _ m qos .ok => { s with lib := s.lib + qosCounts qos, out := s.out ++ [.publishOk (topicText m)] }
   | .publish _ _ _ .err => { s with out := s.out ++ [.publishErr] }
   | .publish _ m qos .pending => { s with pend := some (m, qos) }
-  | .done _ =>
-    match s.pend with
-    | some (m, qos) =>
-      { s with lib := s.lib + qosCounts qos, pend := none, out := s.out ++ [.publishOk (topicText m)] }
-    | none => s
+  | .done id =>
+    -- a pending publish returned `Ok`; without one on record (never in a run: `MqttConn.Inv.pend`) the table answers
+    let tq : Str × Nat := match s.pend with
+      | some (m, qos) => (topicText m, qosCounts qos)
+      | none => (topicOf tbl id, 0)
+    { s with lib := s.lib + tq.2, pend := none, out := s.out ++ [.publishOk tq.1] }
   | .cancel _ => { s with pend := none, out := s.out ++ [.publishErr] }
   | .disconnect _ => { s with out := s.out ++ [.disconnected] }
   | .void id => { s with out := s.out ++ [.publishOk (topicOf tbl id)] }
